@@ -206,7 +206,9 @@ def build_chain(rng, kind, target):
     outer = []
     excl = EXCLUDED_FRAME.get(kind)
     for _ in range(rng.choice([0, 0, 1, 1, 2])):
-        cands = [f for f in FRAMES if f[2] == 'real' and f[0] != excl and f[0] != 'Catalog']
+        # at most one Monte-Carlo / integration operator on the path (nesting them is itself a fault)
+        used = {f[0] for f in outer + [target]} & {'MonteCarlo', 'Integrate'}
+        cands = [f for f in FRAMES if f[2] == 'real' and f[0] != excl and f[0] != 'Catalog' and f[0] not in used]
         outer.append(rng.choice(cands))
     chain = outer + [target]
 
